@@ -44,7 +44,7 @@ func (fr *Frame) oblige(kind, label, goal string, props []string, pos token.Pos,
 		props = top.contract.Props
 	}
 	vc.obls = append(vc.obls, &Obligation{Name: name, Props: props, Kind: kind, Fn: funcKey(top.fn), Prefix: len(vc.lines),
-		Reach: fr.curR, Goal: goal, Src: src, Pos: fr.pos(pos), vc: vc})
+		Reach: fr.curR, Goal: goal, Src: src, Pos: fr.pos(pos), vc: vc, fr: fr.top})
 }
 
 func (fr *Frame) wantSafety(k string) bool {
